@@ -280,7 +280,104 @@ def m3_finalize_window(S):
     S.witness(ctx, ob, "finalize_target_reach", pre + [some], T.gt(val, 3))
 
 
-OBLIGATIONS = [m1_capacity, m2_fee_split, m3_finalize_window, m4_dao_field, m5_block_rewards, m6_withdraw]
+def m7_proposer_paid_once(S):
+    """proposal_reward's walk back through the commit window: the `proposed` set consulted for a block commits' proposer share is
+    the CUMULATIVE union of the proposal sets gathered in all iterations so far (so a share already owed to an earlier proposer is
+    not paid again), and every payment is floor(fee * ratio) of the committed transaction's own fee"""
+    ob = "C06.m7"
+    ctx = S.ctx(unwind=3)
+    ctx.uninterpreted_unknown_calls = True
+    c = ctx.int("w.0", "u64").t; f = ctx.int("w.1", "u64").t
+    rn = ctx.int("ratio.n", "u64"); rd = ctx.int("ratio.d", "u64")
+    pnum = ctx.int("parent.number", "u64")
+    state = {}
+
+    def nm(ex, v):
+        v = deref(ex, v)
+        return getattr(v, "name", None) or (T.to_smt(v.t) if isinstance(v, IntV) else type(v).__name__)
+
+    def setv(srcs):
+        return AggV(tuple(srcs), "SetModel")
+
+    def extend(ex, callee, args, dty):
+        st = deref(ex, args[0])
+        add = deref(ex, args[1])
+        src = getattr(add, "name", "?")
+        ex._write(args[0].frame, args[0].local, list(args[0].proj), setv(tuple(st.fields) + (src,)))
+        return UNIT
+
+    def contains(ex, callee, args, dty):
+        st = deref(ex, args[0])
+        ex.log.append(("contains", callee, [tuple(st.fields), len([e for e in ex.log if e[0] == "iter"])], list(ex.pc)))
+        return ex.ctx.bool(f"contains_{len(ex.log)}")
+
+    def ids_by_hash(ex, callee, args, dty):
+        n = len([e for e in ex.log if e[0] == "ids"])
+        ex.log.append(("ids", callee, [nm(ex, args[-1])], list(ex.pc)))
+        return OpaqueV(f"ids{n}", dty)
+
+    def get_header(ex, callee, args, dty):
+        n = len([e for e in ex.log if e[0] == "iter"])
+        ex.log.append(("iter", callee, [], list(ex.pc)))
+        return mk_option(True, OpaqueV(f"hdr_back{n}", "HeaderView"), dty)
+
+    def number(ex, callee, args, dty):
+        a = deref(ex, args[0])
+        name = getattr(a, "name", "?")
+        if name == "parent":
+            return pnum
+        # walking back one block per iteration
+        k = int(name[len("hdr_back"):]) + 1 if name.startswith("hdr_back") else 0
+        return IntV(T.sub(pnum.t, k), "u64")
+
+    def zip_next(ex, callee, args, dty):
+        key = ("zip", id(deref(ex, args[0])) if False else len([e for e in ex.log if e[0] == "iter"]))
+        n = len([e for e in ex.log if e[0] == "zipnext" and e[2][0] == key[1]])
+        ex.log.append(("zipnext", callee, [key[1]], list(ex.pc)))
+        if n == 0:
+            fee = ctx.int(f"fee_iter{key[1]}", "u64")
+            item = AggV((OpaqueV(f"id_iter{key[1]}", "ProposalShortId"), ex.ctx.ref_to(newtype(fee, "Capacity"))), "(ProposalShortId, &Capacity)")
+            return mk_option(True, item, dty)
+        return mk_option(False, None, dty)
+
+    ctx.env = list(E.LOGGING_OFF) + [
+        (E.rx(r"Consensus::tx_proposal_window$"), lambda ex, cal, a, d: AggV((IntV(c, "u64"), IntV(f, "u64")), "ProposalWindow")),
+        (E.rx(r"Consensus::proposer_reward_ratio$"), lambda ex, cal, a, d: AggV((rn, rd), "Ratio")),
+        (E.rx(r"get_proposal_ids_by_hash$"), ids_by_hash),
+        (E.rx(r"HeaderView::number$"), number),
+        (E.rx(r"HeaderView::hash$|HeaderView::data$|Header::raw$|RawHeader::parent_hash$"), lambda ex, cal, a, d: OpaqueV("h(" + nm(ex, a[0]) + ")", d)),
+        (E.rx(r"HeaderView as ToOwned>::to_owned$"), lambda ex, cal, a, d: deref(ex, a[0])),
+        (E.rx(r"ChainStore>::get_block_header$"), get_header),
+        (E.rx(r"ChainStore>::get_block_hash$"), lambda ex, cal, a, d: mk_option(True, OpaqueV("hash_at(" + nm(ex, a[-1]) + ")", "Byte32"), d)),
+        (E.rx(r"HashSet::<ProposalShortId>::new$"), lambda ex, cal, a, d: setv(())),
+        (E.rx(r"as Extend<ProposalShortId>>::extend"), extend),
+        (E.rx(r"HashSet::<ProposalShortId>::contains"), contains),
+        (E.rx(r"HashSet::<ProposalShortId>::remove"), lambda ex, cal, a, d: ex.ctx.bool(f"removed_{len(ex.log)}_{len(ex.choices)}")),
+        (E.rx(r"HashSet::<ProposalShortId>::is_empty$"), lambda ex, cal, a, d: ex.ctx.bool(f"targets_empty_{len([e for e in ex.log if e[0] == 'iter'])}")),
+        (E.rx(r"Option::<&ProposalShortId>::is_some$"), lambda ex, cal, a, d: ex.ctx.bool(f"has_committed_{len([e for e in ex.log if e[0] == 'iter'])}")),
+        (E.rx(r"Zip<.*> as Iterator>::next$"), zip_next),
+        (E.rx(r"as Fn<.*>>::call$"), E.opaque_call()),
+        (E.rx(r"HashSet::<ProposalShortId>::intersection|as Iterator>::(cloned|collect|zip|next)|impl \[.*\]>::iter$|as IntoIterator>::into_iter$|as Deref>::deref$"), E.opaque_call()),
+    ]
+    fn = S.fn("RewardCalculator::proposal_reward")
+    me = OpaqueV("rc", "RewardCalculator<'_, CS>")
+    ps = S.run(ctx, fn, [ctx.ref_to(me), ctx.ref_to(OpaqueV("parent", "HeaderView")), ctx.ref_to(OpaqueV("target", "HeaderView"))], allow=("return", "panic", "unwind"))
+    pre = [T.le(1, c), T.le(c, f), T.lt(f, 1 << 32), T.le(rn.t, rd.t), T.gt(rd.t, 0), T.lt(pnum.t, (1 << 63))]
+    S.prove(ctx, ob, "no_panic", pre, T.not_(T.or_(*[p.cond() for p in ps if p.outcome == "panic"])))
+    seen = 0
+    for k, p in enumerate([p for p in ps if p.outcome == "return"]):
+        for e in p.log:
+            if e[0] == "contains":
+                seen += 1
+                srcs, it = e[2]
+                want = tuple(f"ids{i}" for i in range(1, it + 1))      # ids0 = the target's own proposals
+                S.prove(ctx, ob, f"path{k}_iteration{it}_proposed_set_is_cumulative", pre + [p.cond()], bool(tuple(srcs) == want))
+    if seen == 0:
+        raise Inconclusive("HashSet::contains on `proposed` never reached")
+    S.witness(ctx, ob, "reach_two_iterations", pre, T.or_(*[p.cond() for p in ps if p.outcome == "return" and len([e for e in p.log if e[0] == "iter"]) >= 2]))
+
+
+OBLIGATIONS = [m1_capacity, m2_fee_split, m3_finalize_window, m4_dao_field, m5_block_rewards, m6_withdraw, m7_proposer_paid_once]
 
 
 def validate(S, native):
